@@ -26,11 +26,11 @@ class UQ:
     __slots__ = ("v",)
 
     def __init__(self, v):
-        self.v = v.v if isinstance(v, UQ) else F(v)
+        self.v = v.v if hasattr(v, "v") else F(v)
 
     @staticmethod
     def _v(o):
-        return o.v if isinstance(o, UQ) else F(o)
+        return o.v if hasattr(o, "v") else F(o)
     def __add__(self, o): return UQ(self.v + self._v(o))
     __radd__ = __add__
     def __sub__(self, o): return UQ(self.v - self._v(o))
@@ -48,7 +48,24 @@ class UQ:
     def __ge__(self, o): return self.v >= self._v(o)
     def __eq__(self, o): return self.v == self._v(o)
     def __hash__(self): return hash(self.v)
+    def __abs__(self): return UQ(abs(self.v))
+    def __int__(self): return int(self.v)
+    def __float__(self): return float(self.v)
     def __repr__(self): return f"UQ({self.v})"
+
+
+class UQF(float):
+    """a float (so isinstance(x, float) holds) that carries an exact rational and computes like UQ"""
+    def __new__(cls, v):
+        o = float.__new__(cls, float(F(v)))
+        o.v = F(v)
+        return o
+
+
+UQF._v = staticmethod(lambda o: o.v if hasattr(o, "v") else F(o))
+for _n in ("__add__", "__radd__", "__sub__", "__rsub__", "__mul__", "__rmul__", "__truediv__", "__rtruediv__", "__neg__",
+           "__pow__", "__rpow__", "__lt__", "__le__", "__gt__", "__ge__", "__eq__", "__hash__", "__abs__"):
+    setattr(UQF, _n, getattr(UQ, _n))
 
 
 METHODS = ["bh", "by", "hochberg-bonferroni", "hochberg-sidak", "holm-bonferroni", "holm-sidak"]
